@@ -507,7 +507,24 @@ def _freeze_heap():
         _frozen = True
 
 
+class _Benign:
+    """`with _Benign(s):` — timeouts fire only when nothing can run (no adversarial inflation of virtual time): used around
+    reset()/del, whose timed joins (0.5 s) would otherwise "give up" on a reader that is merely not scheduled."""
+
+    def __init__(self, s):
+        self.s = s
+
+    def __enter__(self):
+        self.adv = self.s.adversarial
+        self.s.adversarial = False
+
+    def __exit__(self, *a):
+        self.s.adversarial = self.adv
+        return False
+
+
 def _run_case(case, r, sc, weights, kill, probe_held, check_release, delay, op_budget):
+    delay = case.get("delay", delay)
     import gc
     with Instr() as instr:
         with Session(sc["seed"], adversarial=bool(sc.get("adv")), log=True, weights=weights, op_budget=op_budget) as s:
@@ -603,9 +620,15 @@ def _run_case(case, r, sc, weights, kill, probe_held, check_release, delay, op_b
                         s.ev("state", snap["pos"], it["steps_since_snapshot"])
                         r.sds.append(sd)
                         r.obs.append(("sd", snap["pos"], it["steps_since_snapshot"]))
+                    elif op == "idle":
+                        # the consumer pauses: every background thread runs until it blocks (read-ahead reaches its maximum)
+                        with _Benign(s):
+                            s.switch(lambda: False, 0.35)
+                        r.obs.append(("idle",))
                     elif op == "reset":
                         n_before = len(instr.gens)
-                        node.reset()
+                        with _Benign(s):
+                            node.reset()
                         r.obs.append(("reset",))
                         if check_release:
                             s.idle_until_quiet_old = True
@@ -617,7 +640,8 @@ def _run_case(case, r, sc, weights, kill, probe_held, check_release, delay, op_b
                         n_before = len(instr.gens)
                         sd = r.sds[-1] if r.sds else None
                         if node is not None:
-                            del node
+                            with _Benign(s):
+                                del node
                         node = None
                         src = Src(case["items"], case["term"], delay=delay)
                         node = build_node(case, src)
@@ -631,7 +655,8 @@ def _run_case(case, r, sc, weights, kill, probe_held, check_release, delay, op_b
                             node = None  # a raising reset() leaves a half-initialised node: end of this node's history
                     elif op == "del":
                         n_before = len(instr.gens)
-                        del node
+                        with _Benign(s):
+                            del node
                         node = None
                         r.obs.append(("del",))
                         if check_release:
@@ -831,7 +856,7 @@ def check_stream(ctx: Ctx, case, r: Run, oracle: str):
             first_stop = canon.index(("s", 0))
             if any(o != ("s", 0) for o in canon[first_stop:]):
                 ctx.fail("C11:item_after_stop", inp, f"a result after StopIteration: {canon[first_stop:first_stop + 3]}")
-            if case["term"] != "stop" and ("e", "src") not in r.obs[:len(obs)]:
+            if case["term"] != "stop" and ("e", "src") not in obs[:first_stop]:
                 ctx.fail("C11:stop_instead_of_error", inp, "StopIteration was raised although the source ended with an exception that was never raised")
             elif items != ref_items or n_err != exp_err:
                 ctx.fail("C04:multiset_differs", inp, f"at StopIteration delivered items {items}, errors {n_err}; reference {ref_items}, {exp_err}")
@@ -864,7 +889,7 @@ def _ko_stream(ctx: Ctx, case):
     if r.max_inside > 1:
         ctx.fail("C12:two_threads_in_source", inp, f"{r.max_inside} threads were inside the source's next() at the same time")
     for l in r.leaks:
-        ctx.fail("C17:thread_not_released", inp, f"threads still alive 5 virtual seconds {l}")
+        ctx.fail(_leak_kind(l), inp, f"still alive after 5 virtual seconds of idling {l}")
     ctx.case("ko_pm_stream", case, r.n_timeouts > 0 or len(case["items"]) > 1)
     ctx.count("ko_pm:max_held=%d/%d" % (r.max_held, mx))
     ctx.count("ko_pm:hang" if r.hang else "ko_pm:no_hang")
@@ -954,20 +979,38 @@ def _run_resumed(case, sd) -> Run:
     return r
 
 
+JOIN_TIMEOUT = 0.5  # `_shutdown`: `self._read_thread.join(timeout=QUEUE_TIMEOUT * 5)`
+
+
+def _leak_kind(l: str) -> str:
+    return "C17:workers_not_released" if ("worker_thread" in l or "Process-" in l) else "C17:thread_not_released"
+
+
 def _ko_lifecycle(ctx: Ctx, case):
-    """C17 (+C04 per epoch): reset mid-epoch / del / exhaustion: old-generation threads exit within 5 virtual seconds"""
-    r = run_case(case, probe_held=True, check_release=True, op_budget=8.0)
+    """C17 / C12 / C04 across reset / del / exhaustion (also after errors, also method="process", also slow sources):
+    threads and worker processes of an abandoned generation exit within 5 virtual seconds; no reader of an abandoned
+    generation touches the source once a newer iterator is being constructed; the epoch after a reset is the reference."""
+    slow = case.get("delay", 0.0) > 0
+    r = run_case(case, probe_held=True, check_release=True, op_budget=40.0 if slow else 8.0)
     inp = {"oracle": "lifecycle", "case": case}
     for l in r.leaks:
-        ctx.fail("C17:thread_not_released", inp, f"threads still alive 5 virtual seconds {l}")
+        ctx.fail(_leak_kind(l), inp, f"still alive after 5 virtual seconds of idling {l}")
     if r.held_at is not None:
         ctx.fail("C12:held_exceeds", inp, r.held_at)
     if r.hang is not None:
         _classify_hang(ctx, case, r, "lifecycle")
-    # the epoch after a reset starts from the first item again (in order, unless an old reader overlapped: C12's other half)
-    if "reset" in case["hist"] and case["in_order"] and r.hang is None and r.max_inside <= 1:
+    _tr, stale = translate(r.events, r.gens, case["in_order"])
+    if stale:
+        ctx.fail("C12:abandoned_reader_drives_source", inp,
+                 f"the reader thread of iterator generation(s) {sorted(stale)} called the source after the constructor of a newer "
+                 f"iterator had started (source delay {case.get('delay', 0.0)} s, join timeout {JOIN_TIMEOUT} s)")
+        ctx.count("ko_pm:old_reader_after_reset")
+    if r.max_inside > 1:
+        ctx.fail("C12:two_threads_in_source", inp, f"{r.max_inside} threads were inside the source's next() at the same time")
+    # the epoch after a reset starts from the first item again and is complete (in order).  With a source slower than the
+    # join timeout the known C12 defect also damages the epoch: that region is reported under C12 only.
+    if "reset" in case["hist"] and case["in_order"] and r.hang is None and case.get("delay", 0.0) <= JOIN_TIMEOUT:
         ref = ref_results(case)
-        _tr, stale = translate(r.events, r.gens, True)
         segs, cur = [], None
         for o in r.obs:
             if o == ("reset",):
@@ -976,12 +1019,24 @@ def _ko_lifecycle(ctx: Ctx, case):
             elif cur is not None and o[0] in ("i", "e", "s"):
                 cur.append(("i", o[1]) if o[0] == "i" else ("e", 0) if o[0] == "e" else ("s", 0))
         for canon in segs:
-            if not stale and canon[:len(ref)] != ref[:len(canon)]:
-                ctx.fail("C04:epoch_after_reset_differs", inp, f"after reset() the stream is {canon[:4]}, reference {ref[:4]}")
-        if stale:
-            ctx.count("ko_pm:old_reader_after_reset")
+            exp = list(ref) + [("s", 0)] * max(0, len(canon) - len(ref))
+            if canon[:len(exp)] != exp[:len(canon)]:
+                ctx.fail("C04:epoch_incomplete_after_reset", inp, f"after reset() the stream is {canon[:6]}, reference {exp[:6]}")
+                break
     ctx.case("ko_pm_lifecycle", case, True)
+    ctx.count("ko_pm:lifecycle:%s%s" % (case["method"], ":slow" if slow else ""))
     return None
+
+
+def is_reset_while_reader_in_slow_source(f: Failure) -> bool:
+    """Known C12 region, and nothing broader: `_shutdown`'s timed join of the reader gave up because the reader was inside a
+    source whose next() takes longer than the join timeout."""
+    case = f.inp.get("case", {}) if isinstance(f.inp, dict) else {}
+    return (f.kind in ("C12:two_threads_in_source", "C12:abandoned_reader_drives_source")
+            and case.get("delay", 0.0) > JOIN_TIMEOUT)
+
+
+KNOWN_C12 = {"reset-while-reader-in-slow-source": is_reset_while_reader_in_slow_source}
 
 
 def gen_kill_jobs(rng, n_cfg: int, max_at: int):
@@ -1037,6 +1092,9 @@ def run_ko(ctx: Ctx, scale: float = 1.0):
         c = gen_case(rng, allow_reset=False)
         total = len(c["items"]) + 1
         c["hist"] = ["next"] * (total + 2)
+        if c["fail"] or rng.random() < 0.3:
+            # the consumer pauses after every result: the read-ahead runs to its limit (C12, also after a caught map_fn error)
+            c["hist"] = [x for _ in range(total + 2) for x in ("next", "idle")]
         for k in range(ctx.n(2, 4)):
             c2 = dict(c)
             c2["sched"] = {"seed": rng.randrange(1 << 30), "adv": k % 2 == 1, "starve": (rng.randrange(c["N"]) if k == 2 else None)}
@@ -1066,6 +1124,31 @@ def run_ko(ctx: Ctx, scale: float = 1.0):
         if c["term"] == "error" and k >= total:
             c["hist"] = ["next"] * (total - 1) + tail
         life.append(c)
+    # method="process" (and thread) after an error: error -> reset / del / exhaust (C17: the workers must be released)
+    for _ in range(int(ctx.n(36, 400) * scale)):
+        c = gen_case(rng, allow_reset=False)
+        c["method"] = rng.choice(["process", "process", "thread"])
+        n = max(2, len(c["items"]))
+        c["items"] = list(range(10, 10 + n))
+        if rng.random() < 0.5:
+            c["term"], c["fail"] = "stop", [rng.choice(c["items"][:-1])]
+            k = c["items"].index(c["fail"][0]) + 1 if c["in_order"] else n
+        else:
+            c["term"], c["fail"] = "error", []
+            k = n + 1
+        tail = rng.choice([["reset"] + ["next"] * (n + 2), ["del"], ["next"] * (n + 3)])
+        c["hist"] = ["next"] * k + tail
+        c["sched"]["adv"] = False
+        life.append(c)
+    # sources slower than the join timeout, reset mid-epoch (the known C12 region), and a bit faster (must be clean)
+    for d in (0.7, 0.3):
+        for _ in range(int(ctx.n(4, 40) * scale) or 1):
+            c = gen_case(rng, allow_reset=False)
+            n = max(3, min(5, len(c["items"])))
+            c.update({"items": list(range(10, 10 + n)), "term": "stop", "fail": [], "delay": d, "in_order": True})
+            c["sched"] = {"seed": rng.randrange(1 << 30), "adv": False, "starve": None}
+            c["hist"] = ["next"] * rng.randrange(1, n) + ["reset"] + ["next"] * (n + 2)
+            life.append(c)
     ctx.pmap(_ko_lifecycle, life)
     # process workers killed at every switch point
     kills = gen_kill_jobs(rng, int(ctx.n(14, 80) * scale) or 1, ctx.n(20, 40))
